@@ -457,6 +457,17 @@ func runPoller(chk *vcommon.Check, thorough bool) {
 					chk.Violation("poller-stored-beyond-valid-prefix", fmt.Sprintf("%s: store advanced to %d but the peer only sent a valid in-sequence prefix up to %d", where, latest, info.validUpTo), rep)
 					return
 				}
+				// ... and never less, unless the peer reset a stream (a reset may destroy what was sent just before it)
+				resets := false
+				for _, b := range script {
+					if b == "truncated" || b == "reset" {
+						resets = true
+					}
+				}
+				if latest < info.validUpTo && !resets {
+					chk.Violation("poller-drops-valid-prefix", fmt.Sprintf("%s: the peer sent a valid in-sequence prefix up to %d but the store only advanced to %d", where, info.validUpTo, latest), rep)
+					return
+				}
 				if p.NextInstance != latest {
 					chk.Violation("poller-next-instance-not-store-advance", fmt.Sprintf("%s: poller NextInstance=%d but the store's next instance is %d", where, p.NextInstance, latest), rep)
 					return
@@ -523,6 +534,55 @@ func runPoller(chk *vcommon.Check, thorough bool) {
 	chk.Sample(map[string]any{"kind": "poller", "client_has": 2, "peer_has": 6, "script": []string{"gap", "forged-signature"}})
 }
 
+// runClientSeq: what the production client hands to its caller is in sequence — the i-th certificate of a response
+// is the one of instance first+i — whatever a responder sends (shifted start, gaps, repeats, reversed order).
+func runClientSeq(chk *vcommon.Check) {
+	_, hs := vnet.Net(2)
+	clientHost, peerHost := hs[0], hs[1]
+	chain, _ := honestChain(0, 6)
+	shapes := map[string][]int{
+		"honest": {0, 1, 2, 3}, "starts-late": {1, 2, 3}, "starts-early": {0, 1, 2}, "gap": {0, 1, 3, 4}, "gap-at-start": {0, 2, 3},
+		"repeat": {0, 1, 1, 2}, "reversed": {1, 0}, "jump-back": {0, 1, 2, 1}, "far": {5},
+	}
+	n := 0
+	for name, insts := range shapes {
+		for _, first := range []uint64{0, 1} {
+			if name == "starts-early" && first == 0 {
+				continue
+			}
+			n++
+			resp := &vnet.Responder{Host: peerHost, NN: nn}
+			resp.Answer = func(req certexchange.Request) vnet.Reply {
+				rep := vnet.Reply{Pending: 6}
+				for _, i := range insts {
+					rep.Blobs = append(rep.Blobs, blob(chain[i]))
+				}
+				return rep
+			}
+			resp.Start()
+			client := &certexchange.Client{Host: clientHost, NetworkName: nn}
+			_, ch, err := client.Request(bg, peerHost.ID(), &certexchange.Request{FirstInstance: first, Limit: 256})
+			if err == nil {
+				i := uint64(0)
+				for c := range ch {
+					if c.GPBFTInstance != first+i {
+						chk.Violation("client-delivers-out-of-sequence", fmt.Sprintf("request first=%d, responder sends instances %v (%s): the client handed over instance %d as certificate #%d of the response", first, insts, name, c.GPBFTInstance, i), map[string]any{"kind": "client-sequence", "first": first, "sent": insts})
+						break
+					}
+					i++
+				}
+			}
+			peerHost.RemoveStreamHandler(certexchange.FetchProtocolName(nn))
+			chk.Distinct(fmt.Sprintf("cseq/%s/%d", name, first))
+			if chk.Violations() > 0 {
+				return
+			}
+		}
+	}
+	chk.Add("evaluations", int64(n))
+	chk.Set("client_sequence_cases", n)
+}
+
 func main() {
 	prop := flag.String("prop", "C16", "")
 	replay := flag.String("replay", "", "")
@@ -532,10 +592,13 @@ func main() {
 	thorough := vcommon.Thorough()
 	runServer(chk, thorough)
 	if chk.Violations() == 0 {
+		runClientSeq(chk)
+	}
+	if chk.Violations() == 0 {
 		runPoller(chk, thorough)
 	}
 	chk.Set("exhaustive", chk.Violations() == 0)
-	chk.Set("rule", "server: every store of length 0..5 (7) with first instance 0 and 5 x first in {0..len+2, 2^64-2, 2^64-1} x limit in {0,1,2,len,256,257,2^64-1} x power-table flag, read both with a raw stream reader (everything on the wire) and with the production client; poller: every script of <=2 (3) responder behaviours out of 12 (honest, forged signature, wrong delta, reordered, duplicated, gap, truncated, over-long, pending too high/low, reset, one-at-a-time) x client holding {0,2} (or gaining 3 / 2 certificates locally between poller creation and poll, or 1-3 while the first request to an honest peer is in flight) x peer holding {0,1,3,6} certificates against the real Poller")
+	chk.Set("rule", "server: every store of length 0..5 (7) with first instance 0 and 5 x first in {0..len+2, 2^64-2, 2^64-1} x limit in {0,1,2,len,256,257,2^64-1} x power-table flag, read both with a raw stream reader (everything on the wire) and with the production client; poller: every script of <=2 (3) responder behaviours out of 12 (honest, forged signature, wrong delta, reordered, duplicated, gap, truncated, over-long, pending too high/low, reset, one-at-a-time) x client holding {0,2} (or gaining 3 / 2 certificates locally between poller creation and poll, or 1-3 while the first request to an honest peer is in flight) x peer holding {0,1,3,6} certificates against the real Poller: the store gains exactly the valid in-sequence prefix sent (never more; never less unless the peer reset a stream); client: responses that start late / early, skip, repeat or go back are never handed over out of sequence")
 	chk.Assume("mocknet streams; fake signing backend; the poller is driven through its public API")
 	chk.Finish()
 }
